@@ -2,7 +2,10 @@ package main
 
 import (
 	"go/ast"
+	"go/format"
+	"go/parser"
 	"go/token"
+	"strings"
 )
 
 // Source-level expansion of a higher-order start helper, e.g.
@@ -228,4 +231,519 @@ func expandOne(path string, call *ast.CallExpr, used map[string]bool) []ast.Stmt
 		return hd.Body.List
 	}
 	return nil
+}
+
+// Source-level dissolution of a "shared state" struct, e.g.
+//
+//	j := &joiner[A]{ctx: ctx, out: make(chan A, len(in))}
+//	j.wg.Add(len(in)); for _, c := range in { go j.copy(c) }; go j.closeWhenDone(); return j.out
+//	type joiner[A any] struct { ctx context.Context; wg sync.WaitGroup; out chan A }
+//	func (j *joiner[A]) copy(c <-chan A) { defer j.wg.Done(); … j.out <- x … }
+//
+// A statement `v := &T{f1: e1, …}` (or without &) of a stage function, T a struct type of the same file, v used in the
+// function only as `v.f` / `v.m(…)`: every field becomes a local of the same name (`f := e`, nothing when e is the
+// identifier f itself, `var f Ty` when the literal leaves it out), every method m of T that is used becomes a closure
+// `m := func(…) { … }` over those locals (or, when it is only started once as `go v.m()`, the literal `go func() { … }()`),
+// and `v.` disappears. The dissolution gives up when v escapes (is used as a value), when a field name would capture a
+// name the function uses otherwise, when the struct embeds something, or when a method mentions its receiver as a value.
+func destructure(path string, fd *ast.FuncDecl) {
+	for k, st := range fd.Body.List {
+		as, ok := st.(*ast.AssignStmt)
+		if !ok || as.Tok != token.DEFINE || len(as.Lhs) != 1 || len(as.Rhs) != 1 {
+			continue
+		}
+		v, ok := as.Lhs[0].(*ast.Ident)
+		if !ok {
+			continue
+		}
+		e := as.Rhs[0]
+		if u, ok := e.(*ast.UnaryExpr); ok && u.Op == token.AND {
+			e = u.X
+		}
+		cl, ok := e.(*ast.CompositeLit)
+		if !ok || cl.Type == nil {
+			continue
+		}
+		tname, targs := "", []ast.Expr{}
+		switch t := cl.Type.(type) {
+		case *ast.Ident:
+			tname = t.Name
+		case *ast.IndexExpr:
+			if i, ok := t.X.(*ast.Ident); ok {
+				tname, targs = i.Name, []ast.Expr{t.Index}
+			}
+		case *ast.IndexListExpr:
+			if i, ok := t.X.(*ast.Ident); ok {
+				tname, targs = i.Name, t.Indices
+			}
+		}
+		if tname == "" {
+			continue
+		}
+		if repl := dissolve(path, fd, k, v.Name, tname, targs, cl); repl != nil {
+			fd.Body.List = repl
+			return
+		}
+	}
+}
+
+func dissolve(path string, fd *ast.FuncDecl, at int, v, tname string, targs []ast.Expr, cl *ast.CompositeLit) []ast.Stmt {
+	f := parse(path) // fresh copy: method bodies are renamed in place
+	var sd *ast.StructType
+	tparams := []string{}
+	for _, d := range f.Decls {
+		gd, ok := d.(*ast.GenDecl)
+		if !ok || gd.Tok != token.TYPE {
+			continue
+		}
+		for _, sp := range gd.Specs {
+			ts := sp.(*ast.TypeSpec)
+			if ts.Name.Name != tname {
+				continue
+			}
+			s, ok := ts.Type.(*ast.StructType)
+			if !ok {
+				return nil
+			}
+			sd = s
+			if ts.TypeParams != nil {
+				for _, fl := range ts.TypeParams.List {
+					for _, n := range fl.Names {
+						tparams = append(tparams, n.Name)
+					}
+				}
+			}
+		}
+	}
+	if sd == nil || len(tparams) != len(targs) {
+		return nil
+	}
+	fields := []string{}
+	ftype := map[string]ast.Expr{}
+	for _, fl := range sd.Fields.List {
+		if len(fl.Names) == 0 {
+			return nil // embedded
+		}
+		for _, n := range fl.Names {
+			fields = append(fields, n.Name)
+			ftype[n.Name] = fl.Type
+		}
+	}
+	isField := map[string]bool{}
+	for _, n := range fields {
+		isField[n] = true
+	}
+	// literal values
+	vals := map[string]ast.Expr{}
+	for _, el := range cl.Elts {
+		kv, ok := el.(*ast.KeyValueExpr)
+		if !ok {
+			return nil
+		}
+		kid, ok := kv.Key.(*ast.Ident)
+		if !ok || !isField[kid.Name] {
+			return nil
+		}
+		vals[kid.Name] = kv.Value
+	}
+	// methods of T
+	type meth struct {
+		fd   *ast.FuncDecl
+		recv string
+	}
+	methods := map[string]*meth{}
+	morder := []string{}
+	for _, d := range f.Decls {
+		md, ok := d.(*ast.FuncDecl)
+		if !ok || md.Recv == nil || len(md.Recv.List) != 1 || md.Body == nil {
+			continue
+		}
+		rt := md.Recv.List[0].Type
+		if s, ok := rt.(*ast.StarExpr); ok {
+			rt = s.X
+		}
+		rn, rparams := "", []string{}
+		switch t := rt.(type) {
+		case *ast.Ident:
+			rn = t.Name
+		case *ast.IndexExpr:
+			if i, ok := t.X.(*ast.Ident); ok {
+				rn = i.Name
+				if p, ok := t.Index.(*ast.Ident); ok {
+					rparams = []string{p.Name}
+				}
+			}
+		case *ast.IndexListExpr:
+			if i, ok := t.X.(*ast.Ident); ok {
+				rn = i.Name
+				for _, ix := range t.Indices {
+					if p, ok := ix.(*ast.Ident); ok {
+						rparams = append(rparams, p.Name)
+					}
+				}
+			}
+		}
+		if rn != tname {
+			continue
+		}
+		if len(rparams) != len(targs) || len(md.Recv.List[0].Names) != 1 {
+			return nil
+		}
+		// receiver type parameters -> the caller's type arguments (identifiers only)
+		tren := map[string]string{}
+		for i, p := range rparams {
+			a, ok := targs[i].(*ast.Ident)
+			if !ok {
+				return nil
+			}
+			if p != a.Name {
+				tren[p] = a.Name
+			}
+		}
+		if len(tren) > 0 {
+			ast.Inspect(md, func(n ast.Node) bool {
+				if i, ok := n.(*ast.Ident); ok {
+					if to, ok := tren[i.Name]; ok {
+						i.Name = to
+					}
+				}
+				return true
+			})
+		}
+		methods[md.Name.Name] = &meth{fd: md, recv: md.Recv.List[0].Names[0].Name}
+		morder = append(morder, md.Name.Name)
+	}
+	// struct type parameters -> type arguments inside the field types
+	{
+		tren := map[string]string{}
+		for i, p := range tparams {
+			a, ok := targs[i].(*ast.Ident)
+			if !ok {
+				return nil
+			}
+			if p != a.Name {
+				tren[p] = a.Name
+			}
+		}
+		for _, t := range ftype {
+			ast.Inspect(t, func(n ast.Node) bool {
+				if i, ok := n.(*ast.Ident); ok {
+					if to, ok := tren[i.Name]; ok {
+						i.Name = to
+					}
+				}
+				return true
+			})
+		}
+	}
+	// names the function uses apart from `v.x` selections and the literal's keys
+	used := map[string]bool{}
+	var collect func(n ast.Node)
+	collect = func(n ast.Node) {
+		ast.Inspect(n, func(m ast.Node) bool {
+			switch y := m.(type) {
+			case *ast.SelectorExpr:
+				if i, ok := y.X.(*ast.Ident); ok && i.Name == v {
+					return false
+				}
+			case *ast.KeyValueExpr:
+				collect(y.Value)
+				return false
+			case *ast.Ident:
+				used[y.Name] = true
+			}
+			return true
+		})
+	}
+	collect(fd)
+	// rewrite `r.f` -> f, `r.m` -> m; any other mention of r gives up
+	bad := false
+	useCount := map[string]int{}
+	var strip func(n ast.Node, r string) // in place, on parents holding the selector
+	strip = func(root ast.Node, r string) {
+		ast.Inspect(root, func(n ast.Node) bool {
+			rewrite := func(e ast.Expr) ast.Expr {
+				if s, ok := e.(*ast.SelectorExpr); ok {
+					if i, ok := s.X.(*ast.Ident); ok && i.Name == r {
+						if isField[s.Sel.Name] {
+							return ast.NewIdent(s.Sel.Name)
+						}
+						if methods[s.Sel.Name] != nil {
+							useCount[s.Sel.Name]++
+							return ast.NewIdent(s.Sel.Name)
+						}
+						bad = true
+					}
+				}
+				return e
+			}
+			switch y := n.(type) {
+			case *ast.SelectorExpr:
+				y.X = rewrite(y.X)
+			case *ast.CallExpr:
+				y.Fun = rewrite(y.Fun)
+				for i := range y.Args {
+					y.Args[i] = rewrite(y.Args[i])
+				}
+			case *ast.SendStmt:
+				y.Chan, y.Value = rewrite(y.Chan), rewrite(y.Value)
+			case *ast.UnaryExpr:
+				y.X = rewrite(y.X)
+			case *ast.BinaryExpr:
+				y.X, y.Y = rewrite(y.X), rewrite(y.Y)
+			case *ast.RangeStmt:
+				y.X = rewrite(y.X)
+			case *ast.AssignStmt:
+				for i := range y.Lhs {
+					y.Lhs[i] = rewrite(y.Lhs[i])
+				}
+				for i := range y.Rhs {
+					y.Rhs[i] = rewrite(y.Rhs[i])
+				}
+			case *ast.ReturnStmt:
+				for i := range y.Results {
+					y.Results[i] = rewrite(y.Results[i])
+				}
+			case *ast.ExprStmt:
+				y.X = rewrite(y.X)
+			case *ast.IfStmt:
+				y.Cond = rewrite(y.Cond)
+			case *ast.ForStmt:
+				if y.Cond != nil {
+					y.Cond = rewrite(y.Cond)
+				}
+			case *ast.ParenExpr:
+				y.X = rewrite(y.X)
+			case *ast.IndexExpr:
+				y.X, y.Index = rewrite(y.X), rewrite(y.Index)
+			case *ast.StarExpr:
+				y.X = rewrite(y.X)
+			case *ast.KeyValueExpr:
+				y.Value = rewrite(y.Value)
+			case *ast.CompositeLit:
+				for i := range y.Elts {
+					y.Elts[i] = rewrite(y.Elts[i])
+				}
+			case *ast.IncDecStmt:
+				y.X = rewrite(y.X)
+			case *ast.CaseClause:
+				for i := range y.List {
+					y.List[i] = rewrite(y.List[i])
+				}
+			case *ast.SwitchStmt:
+				if y.Tag != nil {
+					y.Tag = rewrite(y.Tag)
+				}
+			}
+			return true
+		})
+		// anything left that mentions r is a use as a value
+		ast.Inspect(root, func(n ast.Node) bool {
+			if i, ok := n.(*ast.Ident); ok && i.Name == r {
+				bad = true
+			}
+			return true
+		})
+	}
+	// the function itself (without the defining statement)
+	rest := append([]ast.Stmt{}, fd.Body.List[:at]...)
+	tail := fd.Body.List[at+1:]
+	holder := &ast.BlockStmt{List: tail}
+	strip(holder, v)
+	for _, val := range vals {
+		ast.Inspect(val, func(n ast.Node) bool {
+			if i, ok := n.(*ast.Ident); ok && i.Name == v {
+				bad = true
+			}
+			return true
+		})
+	}
+	if bad {
+		return nil
+	}
+	// methods: strip their receivers (a method may call another one)
+	for _, mn := range morder {
+		m := methods[mn]
+		strip(m.fd.Body, m.recv)
+		// a local or parameter of the method must not capture a field or method name
+		ast.Inspect(m.fd, func(n ast.Node) bool {
+			switch y := n.(type) {
+			case *ast.AssignStmt:
+				if y.Tok == token.DEFINE {
+					for _, l := range y.Lhs {
+						if i, ok := l.(*ast.Ident); ok && (isField[i.Name] || methods[i.Name] != nil) {
+							bad = true
+						}
+					}
+				}
+			case *ast.Field:
+				if n != m.fd.Recv.List[0] {
+					for _, i := range y.Names {
+						if isField[i.Name] || methods[i.Name] != nil {
+							bad = true
+						}
+					}
+				}
+			case *ast.ValueSpec:
+				for _, i := range y.Names {
+					if isField[i.Name] || methods[i.Name] != nil {
+						bad = true
+					}
+				}
+			}
+			return true
+		})
+	}
+	if bad {
+		return nil
+	}
+	// field locals
+	for _, fn := range fields {
+		val, has := vals[fn]
+		if has {
+			if i, ok := val.(*ast.Ident); ok && i.Name == fn {
+				continue // `ctx: ctx`: the local of that name is the field
+			}
+		}
+		if used[fn] {
+			return nil // the name means something else in the function
+		}
+		if has {
+			rest = append(rest, &ast.AssignStmt{Lhs: []ast.Expr{ast.NewIdent(fn)}, Tok: token.DEFINE, Rhs: []ast.Expr{val}})
+		} else {
+			rest = append(rest, &ast.DeclStmt{Decl: &ast.GenDecl{Tok: token.VAR, Specs: []ast.Spec{&ast.ValueSpec{Names: []*ast.Ident{ast.NewIdent(fn)}, Type: ftype[fn]}}}})
+		}
+	}
+	// methods: a closure each, except those started exactly once as `go m()` at the top level of the function
+	inPlace := map[string]bool{}
+	for _, s := range tail {
+		if g, ok := s.(*ast.GoStmt); ok && len(g.Call.Args) == 0 {
+			if i, ok := g.Call.Fun.(*ast.Ident); ok && methods[i.Name] != nil && useCount[i.Name] == 1 &&
+				(methods[i.Name].fd.Type.Params == nil || len(methods[i.Name].fd.Type.Params.List) == 0) {
+				inPlace[i.Name] = true
+				g.Call.Fun = &ast.FuncLit{Type: &ast.FuncType{Params: &ast.FieldList{}}, Body: methods[i.Name].fd.Body}
+			}
+		}
+	}
+	for _, mn := range morder {
+		if useCount[mn] == 0 || inPlace[mn] {
+			continue
+		}
+		if used[mn] {
+			return nil
+		}
+		m := methods[mn]
+		rest = append(rest, &ast.AssignStmt{Lhs: []ast.Expr{ast.NewIdent(mn)}, Tok: token.DEFINE,
+			Rhs: []ast.Expr{&ast.FuncLit{Type: &ast.FuncType{Params: m.fd.Type.Params, Results: m.fd.Type.Results}, Body: m.fd.Body}}})
+	}
+	return append(rest, tail...)
+}
+
+// normalised copy of a rewritten function: printed and parsed again, so that every node has consistent positions
+// (go/printer spaces nodes without positions differently, and the translators compare printed statements)
+func reparse(fd *ast.FuncDecl) *ast.FuncDecl {
+	var sb strings.Builder
+	sb.WriteString("package p\n\n")
+	saveDoc := fd.Doc
+	fd.Doc = nil
+	if err := format.Node(&sb, token.NewFileSet(), fd); err != nil {
+		fd.Doc = saveDoc
+		return fd
+	}
+	fd.Doc = saveDoc
+	f, err := parser.ParseFile(fset, fd.Name.Name+" (rewritten)", sb.String(), parser.SkipObjectResolution)
+	if err != nil {
+		return fd
+	}
+	for _, d := range f.Decls {
+		if nd, ok := d.(*ast.FuncDecl); ok {
+			return nd
+		}
+	}
+	return fd
+}
+
+// the source-level rewrites every loop-body translator applies first
+func prepass(path string, fd *ast.FuncDecl) *ast.FuncDecl {
+	n := len(fd.Body.List)
+	before := src(fd.Body)
+	destructure(path, fd)
+	expandHelpers(path, fd)
+	normaliseRecvLoops(fd)
+	if len(fd.Body.List) != n || src(fd.Body) != before {
+		return reparse(fd)
+	}
+	return fd
+}
+
+// `for { x, ok := <-ch; if !ok { break }; BODY }` is `for x := range ch { BODY }`; with `return` in place of `break` it
+// is too when the loop is the last statement of its function (the return then ends what the loop's end would end).
+// ok must not be mentioned in BODY.
+func normaliseRecvLoops(fd *ast.FuncDecl) {
+	var doBody func(list []ast.Stmt)
+	doBody = func(list []ast.Stmt) {
+		for k, st := range list {
+			fs, ok := st.(*ast.ForStmt)
+			if !ok || fs.Init != nil || fs.Cond != nil || fs.Post != nil || len(fs.Body.List) < 2 {
+				continue
+			}
+			as, ok := fs.Body.List[0].(*ast.AssignStmt)
+			if !ok || as.Tok != token.DEFINE || len(as.Lhs) != 2 || len(as.Rhs) != 1 {
+				continue
+			}
+			u, ok := as.Rhs[0].(*ast.UnaryExpr)
+			if !ok || u.Op != token.ARROW {
+				continue
+			}
+			x, ok1 := as.Lhs[0].(*ast.Ident)
+			okv, ok2 := as.Lhs[1].(*ast.Ident)
+			if !ok1 || !ok2 {
+				continue
+			}
+			is, ok := fs.Body.List[1].(*ast.IfStmt)
+			if !ok || is.Init != nil || is.Else != nil || len(is.Body.List) != 1 {
+				continue
+			}
+			ne, ok := is.Cond.(*ast.UnaryExpr)
+			if !ok || ne.Op != token.NOT {
+				continue
+			}
+			ci, ok := ne.X.(*ast.Ident)
+			if !ok || ci.Name != okv.Name {
+				continue
+			}
+			exit := false
+			switch e := is.Body.List[0].(type) {
+			case *ast.BranchStmt:
+				exit = e.Tok == token.BREAK && e.Label == nil
+			case *ast.ReturnStmt:
+				exit = len(e.Results) == 0 && k == len(list)-1
+			}
+			if !exit {
+				continue
+			}
+			mentioned := false
+			for _, s := range fs.Body.List[2:] {
+				ast.Inspect(s, func(n ast.Node) bool {
+					if i, ok := n.(*ast.Ident); ok && i.Name == okv.Name {
+						mentioned = true
+					}
+					return true
+				})
+			}
+			if mentioned {
+				continue
+			}
+			list[k] = &ast.RangeStmt{Key: x, Tok: token.DEFINE, X: u.X, Body: &ast.BlockStmt{List: fs.Body.List[2:]}}
+		}
+	}
+	ast.Inspect(fd, func(n ast.Node) bool {
+		switch y := n.(type) {
+		case *ast.FuncLit:
+			doBody(y.Body.List)
+		case *ast.FuncDecl:
+			doBody(y.Body.List)
+		}
+		return true
+	})
 }
